@@ -35,8 +35,69 @@ type Case struct {
 	Unique bool `json:"unique,omitempty"`
 	// Toggle: one writer toggles one range, watchers look up one fixed address inside it (Ops =
 	// number of toggles; Unique = filter already in map mode)
-	Toggle bool  `json:"toggle,omitempty"`
-	Seed   int64 `json:"seed"`
+	Toggle bool `json:"toggle,omitempty"`
+	// Witness: other filter instances live and work in the same process during the trial (one long-lived
+	// in map mode, and fresh ones that are filled across the list-to-map switch over and over), in an
+	// address space of their own (90.0.0.0/8). Instances share nothing: each answers by its own history.
+	Witness bool  `json:"witness,omitempty"`
+	Seed    int64 `json:"seed"`
+}
+
+// startWitness runs the other instances (see Case.Witness) until the returned function is called;
+// that function returns a description of the first wrong answer of a witness instance, or "".
+func startWitness(on bool) func() string {
+	if !on {
+		return func() string { return "" }
+	}
+	wcidr := func(i int) *net.IPNet { return cidr(90<<24|uint32(i)<<8|0x3, 24) }
+	check := func(f *netutil.IPv4Filter, n int, who string) string {
+		for i := 0; i < n; i += 7 {
+			if a := 90<<24 | uint32(i)<<8 | 0x42; !f.Contains(u2ip(a)) {
+				return fmt.Sprintf("%s: Contains(%s)=false, a range only this instance added and never removed", who, u2ip(a))
+			}
+		}
+		for _, a := range []uint32{20<<24 | 3<<16 | 9, 40<<24 | 1<<8 | 9, 41<<24 | 2<<8 | 1, 90<<24 | 0xffff<<8 | 1} {
+			if f.Contains(u2ip(a)) {
+				return fmt.Sprintf("%s: Contains(%s)=true, an address this instance never received (other instances did)", who, u2ip(a))
+			}
+		}
+		return ""
+	}
+	old := netutil.NewIPv4Filter()
+	for i := 0; i < 300; i++ {
+		old.Add(wcidr(i))
+	}
+	var stop atomic.Bool
+	res := make(chan string, 1)
+	go func() {
+		var bad string
+		defer func() {
+			if p := recover(); p != nil && bad == "" {
+				bad = fmt.Sprint("witness instance panicked: ", p)
+			}
+			res <- bad
+		}()
+		for bad == "" && !stop.Load() {
+			fresh := netutil.NewIPv4Filter()
+			for i := 0; i < 260 && bad == ""; i++ {
+				fresh.Add(wcidr(i))
+				if i >= 254 { // around its own switch
+					bad = check(fresh, i+1, "fresh instance")
+				}
+			}
+			if bad == "" {
+				bad = check(old, 300, "long-lived instance")
+			}
+			runtime.Gosched()
+		}
+	}()
+	return func() string {
+		stop.Store(true)
+		if b := <-res; b != "" {
+			return b
+		}
+		return check(old, 300, "long-lived instance (after the trial)")
+	}
 }
 
 func u2ip(u uint32) net.IP {
@@ -204,10 +265,14 @@ func runSwitch(cs Case, st *stats) (key, expected, observed string) {
 			}
 		}(rd)
 	}
+	witness := startWitness(cs.Witness)
 	close(start)
 	wg.Wait()
 	stop.Store(true)
 	rg.Wait()
+	if b := witness(); b != "" {
+		return "instances-interfere", "filter instances are independent of each other", b
+	}
 	st.trials++
 	st.switchRounds++
 	st.crossed++
@@ -512,11 +577,15 @@ func runCase(cs Case, st *stats) (key, expected, observed string) {
 			}
 		}()
 	}
+	witness := startWitness(cs.Witness)
 	close(start)
 	wg.Wait()
 	stop.Store(true)
 	rg.Wait()
 	tg.Wait()
+	if b := witness(); b != "" {
+		return "instances-interfere", "filter instances are independent of each other", b
+	}
 	st.trials++
 	st.togglerIntervals += int64(len(toggles))
 	excused := func(s suspicious) bool {
@@ -599,7 +668,7 @@ type mon struct{}
 func (mon) Name() string { return "ipfilterconc" }
 
 func (mon) Level(string) (string, string) {
-	return "exploration", "trials: fresh filter with 32 stable /16 ranges; 2 or 4 writers (each owning a disjoint /8, 150..300 seeded Add/Remove ops with nested and repeated prefixes, probing its own range after every op), 2 or 8 readers probing stable addresses (must be true) and never-added addresses (must be false unless the logical interval of the call meets a 0.0.0.0/0 on-interval of the toggler), total adds crossing the 256-entry list→map switch while readers run; afterwards full agreement with the per-writer sequential models. Plus 'switch rounds': the list is filled to exactly 256 entries, then one writer's Add (with a common or a unique prefix length) switches the filter to maps while the other writers remove ranges they added and readers probe; final state compared with the per-writer models (the other writers may also Add at that moment). Plus 'toggle' trials: one writer toggles one range 400 times with short quiet periods while 2-8 watchers look up one fixed address inside it; a lookup that began and ended inside one quiescent period (phase counter read before and after) must report that period's membership. Plain at GOMAXPROCS 2/4/16 and under -race (race runs without the logical clock). distinct_nontrivial = distinct trials (configuration, seed) in which lookups overlapped writes"
+	return "exploration", "trials: fresh filter with 32 stable /16 ranges; 2 or 4 writers (each owning a disjoint /8, 150..300 seeded Add/Remove ops with nested and repeated prefixes, probing its own range after every op), 2 or 8 readers probing stable addresses (must be true) and never-added addresses (must be false unless the logical interval of the call meets a 0.0.0.0/0 on-interval of the toggler), total adds crossing the 256-entry list→map switch while readers run; afterwards full agreement with the per-writer sequential models. Plus 'switch rounds': the list is filled to exactly 256 entries, then one writer's Add (with a common or a unique prefix length) switches the filter to maps while the other writers remove ranges they added and readers probe; final state compared with the per-writer models (the other writers may also Add at that moment). Plus 'toggle' trials: one writer toggles one range 400 times with short quiet periods while 2-8 watchers look up one fixed address inside it; a lookup that began and ended inside one quiescent period (phase counter read before and after) must report that period's membership. In every second trial and every fourth switch round further filter instances work in the same process at the same time (a long-lived one in map mode, fresh ones filled across their own switch again and again, address space 90/8): each instance must answer by its own history only. Plain at GOMAXPROCS 2/4/16 and under -race (race runs without the logical clock). distinct_nontrivial = distinct trials (configuration, seed) in which lookups overlapped writes"
 }
 
 type shardArgs struct {
@@ -636,9 +705,9 @@ func (mn mon) Run(sh drv.Shard, c *drv.Ctx) {
 	st := &stats{}
 	r := rand.New(rand.NewSource(sh.Seed*6364136223846793005 + int64(a.Part)))
 	for i := 0; i < a.Trials; i++ {
-		cs := Case{Writers: []int{2, 4}[r.Intn(2)], Readers: []int{2, 8}[r.Intn(2)], Ops: 150 + r.Intn(151), Toggler: r.Intn(2) == 0, NoClock: sh.Race, Seed: r.Int63()}
+		cs := Case{Writers: []int{2, 4}[r.Intn(2)], Readers: []int{2, 8}[r.Intn(2)], Ops: 150 + r.Intn(151), Toggler: r.Intn(2) == 0, NoClock: sh.Race, Seed: r.Int63(), Witness: i%2 == 1}
 		if a.Switch {
-			cs = Case{Writers: 2 + r.Intn(3), Readers: 1 + r.Intn(2), Switch: true, Unique: r.Intn(2) == 0, Seed: r.Int63()}
+			cs = Case{Writers: 2 + r.Intn(3), Readers: 1 + r.Intn(2), Switch: true, Unique: r.Intn(2) == 0, Seed: r.Int63(), Witness: i%4 == 3}
 		}
 		if a.Toggle {
 			cs = Case{Readers: 2 + r.Intn(7), Ops: 400, Toggle: true, Unique: r.Intn(2) == 0, Seed: r.Int63()}
